@@ -10,8 +10,27 @@ from vt import driver
 from vt import findings as fnd
 
 
+def with_variants(jobs, tier: str):
+    """the family plus the syntactic variants (vt/families/mutate.py) of its programs: all programs in the thorough
+    tier, the sub-bounded slice (checks/C01.py:slice_keep) in the quick tier"""
+    from itertools import chain  # pylint: disable=import-outside-toplevel
+
+    from vt.checks.C01 import slice_keep  # pylint: disable=import-outside-toplevel
+    from vt.families import mutate  # pylint: disable=import-outside-toplevel
+    from vt.families.base import dedupe  # pylint: disable=import-outside-toplevel
+
+    jobs = list(jobs)
+    keep = slice_keep(tier)
+    base = [j for j in jobs if tier != "quick" or keep(j)]
+    return dedupe(chain(jobs, mutate.variants(base)))
+
+
 def family_main(prop: str, tier: str, seed: int, jobs, rule: str, bounds: dict, post=None) -> int:
     t0 = time.time()
+    rule += (" The family also contains the syntactic variants of its programs (statement order, literal order, negated / "
+             "doubly negated aggregates and conditional literals, function / arithmetic tuple terms, mirrored comparisons, "
+             "one-line layout; quick: variants of the sub-bounded slice, thorough: of all programs).") if bounds.get(
+        "variants") else ""
     agg = driver.Aggregate()
     driver.run_pool(jobs, seed, agg.add)
     extra = post(agg) if post else None
